@@ -348,6 +348,16 @@ func (s *simSys) submit(ctx context.Context, in *simInst, e *simEntry, low bool)
 		in.admitted[e.dedupKey()] = cur
 	case "pool":
 		wt.Pool = in.admitted[e.dedupKey()]
+		if wt.Pool == nil {
+			// admitted through another path (e.g. the HTTP handler): find out which pool the answer waits on
+			in.l.poolMu.Lock()
+			if _, ok := cur.byHash[computeCacheHash(e.P.Certificate, e.P.IsPrecert, e.P.IssuerKeyHash)]; ok {
+				wt.Pool = cur
+			} else {
+				wt.Pool = in.p.pool
+			}
+			in.l.poolMu.Unlock()
+		}
 	}
 	in.waiters = append(in.waiters, wt)
 	return wt
@@ -372,6 +382,9 @@ func (s *simSys) poll(in *simInst, res *simRoundResult) {
 	rest := in.waiters[:0]
 	for _, wt := range in.waiters {
 		ready := true
+		if wt.Pool == nil && (wt.Src == "pool" || wt.Src == "sequencer") {
+			ready = false // unknown pool: never risk blocking
+		}
 		if wt.Pool != nil {
 			select {
 			case <-wt.Pool.done:
@@ -400,7 +413,10 @@ func (s *simSys) resolve(in *simInst, wt *simWaiter, le *sunlight.LogEntry, err 
 	if in.p.dead {
 		return // a dead process answers nobody
 	}
-	a := simAck{Entry: wt.Entry, Index: le.LeafIndex, Time: le.Timestamp, Proc: in.p.id, Op: s.w.opN, Src: wt.Src}
+	s.resolveAck(in, simAck{Entry: wt.Entry, Index: le.LeafIndex, Time: le.Timestamp, Proc: in.p.id, Op: s.w.opN, Src: wt.Src}, res)
+}
+
+func (s *simSys) resolveAck(in *simInst, a simAck, res *simRoundResult) {
 	s.acks = append(s.acks, a)
 	if res != nil {
 		res.Acks = append(res.Acks, a)
